@@ -506,6 +506,78 @@ pub fn run(seed: u64) -> RunReport {
                 );
             }
         }
+        // Delivered exactly once: the proxy holds no response any more for
+        // a child that collected it, and asking again changes nothing.
+        let open_responses = |r: &Runner| -> Vec<(String, usize)> {
+            hooks::with_faults_suspended(|| {
+                let rt = r.world.inst(0).rt();
+                let Ok(proxy) = rt.ca_manager().get_trust_anchor_proxy()
+                else { return Vec::new() };
+                let value = serde_json::to_value(proxy.as_ref())
+                    .unwrap_or_default();
+                let mut out = Vec::new();
+                if let Some(children) = value.get("child_details")
+                    .and_then(|c| c.as_object())
+                {
+                    for (name, details) in children {
+                        let n = details.get("open_responses")
+                            .map(|o| match o {
+                                serde_json::Value::Object(m) => m.len(),
+                                serde_json::Value::Array(a) => a.len(),
+                                _ => 0,
+                            }).unwrap_or(0);
+                        out.push((name.clone(), n));
+                    }
+                }
+                out.sort();
+                out
+            })
+        };
+        for (i, child) in children.iter().enumerate() {
+            if !requesting.contains(child)
+                || before_children[i] == after_children[i]
+            {
+                continue
+            }
+            let held = open_responses(&r).into_iter()
+                .find(|(name, _)| name == child).map(|x| x.1).unwrap_or(0);
+            if held > 0 {
+                fail!(
+                    "response_kept_after_delivery",
+                    "round {round}: child {child} collected its response \
+                     ({} -> {}) but the proxy still holds {held} open \
+                     response(s) for it",
+                    before_children[i], after_children[i]
+                );
+            }
+            cases.insert("proxy.response_delivered_once".into());
+        }
+        {
+            // A further synchronisation of every child: nothing is
+            // delivered a second time.
+            let digest_before = ta_digest(r.world.inst(0).rt());
+            let states_before: Vec<String> = children.iter()
+                .map(|c| child_state(&r, c)).collect();
+            for child in &requesting {
+                let _ = sync_child(&r, child);
+            }
+            let states_after: Vec<String> = children.iter()
+                .map(|c| child_state(&r, c)).collect();
+            if states_before != states_after
+                && open_responses(&r).iter().all(|x| x.1 == 0)
+                && ta_digest(r.world.inst(0).rt()) == digest_before
+            {
+                // A child changed state without the trust anchor having
+                // anything new for it: a response was delivered again.
+                fail!(
+                    "response_delivered_twice",
+                    "round {round}: a further synchronisation changed \
+                     the children from {states_before:?} to \
+                     {states_after:?} although the proxy had no open \
+                     response"
+                );
+            }
+        }
         // Manifest number of the trust anchor only increases.
         let number = ta_manifest_number(&r);
         if let (Some(prev), Some(now)) = (last_number, number) {
